@@ -31,5 +31,18 @@ Proof.
   - intros x. rewrite (jkeys_exact _ _ _ _ x H1), (jkeys_exact _ _ _ _ x H2), H. reflexivity.
 Qed.
 
+(* serialisation order: the records appear in the order of the (&entities, &markers) join, and that
+   join is strictly ascending in the entity index - so the position of a record is a function of which
+   entities are alive and marked, whatever the histories of the marker storage and of the allocator *)
+From SV Require Import SaveLoad.Marker SaveLoad.SerDe SaveLoad.SerDeProps.
+Theorem C20_serialisation_order_is_the_join_order : forall w nc d, serialize w nc = Some d ->
+  map fst d = map snd (join_marked w) /\
+  Sorted (fun a b : entity => fst a < fst b) (map fst (join_marked w)).
+Proof.
+  intros w nc d H. split; [exact (serialize_order w nc d H) | exact (join_marked_ascending w)].
+Qed.
+
+
 Print Assumptions C20_iteration_order_is_membership.
 Print Assumptions C20_join_order_is_membership.
+Print Assumptions C20_serialisation_order_is_the_join_order.
